@@ -268,6 +268,10 @@ class Repo(object):
         except SyntaxError as e:
             raise AnalysisError('cannot parse %s: %s' % (path, e))
         if fold:
+            if os.environ.get('VERIF_NO_CANON') != '1':
+                # comparison orientation first, so that the platform tests below are recognised however they are written
+                from . import canon
+                tree = canon._Expr({}).visit(tree)
             tree = _Folder(name, self.pruned).visit(tree)
             ast.fix_missing_locations(tree)
         sha = hashlib.sha256(src.encode('utf-8')).hexdigest()
